@@ -37,6 +37,9 @@ func ctxName(c parser.ContextType) string {
 
 const dropMarker = "drop_me"
 
+// pluginContext is a context value that a plugin defines for itself.
+const pluginContext parser.ContextType = 77
+
 // sprinkleDropMarkers inserts marker statements (`drop_me;`) into the statement lists of prog.
 func sprinkleDropMarkers(prog *gen.Node, r *rand.Rand) int {
 	n := 0
@@ -98,6 +101,14 @@ func recordContexts(src string, m Mode, nestEvery int, coin *rand.Rand, drop boo
 			}
 			if coin != nil && depth == 0 && coin.IntN(3) == 0 {
 				// a plugin that parses the statement itself through the public Parse*Statement API (see dispatchStatement)
+				if coin.IntN(3) == 0 {
+					// ... and tracks its own construct on the parser's context stack with a context value of its own
+					// (PushContext / PopContext are public): the parser's own entries are as before once it has popped
+					p.PushContext(pluginContext)
+					st := dispatchStatement(p)
+					p.PopContext()
+					return st
+				}
 				return dispatchStatement(p)
 			}
 			return next()
@@ -275,6 +286,10 @@ func checkContexts(t *fw.T, r *rand.Rand, prog *gen.Node, stratum string) {
 			}
 			bad := ""
 			switch {
+			case o.ctx == pluginContext:
+				// the innermost entry is the plugin's own construct (pushed by the interceptor that is parsing this
+				// statement): nothing to compare it with; IsInFunction and everything after its pop are judged
+				t.Count("observations_inside_a_plugin_context", 1)
 			case (o.ctx == parser.GlobalContext) != (gt.Depth == 0):
 				bad = fmt.Sprintf("CurrentContext()=%s but nesting depth is %d", ctxName(o.ctx), gt.Depth)
 			case gt.Ctx == gen.CtxBlock && o.ctx != parser.BlockContext:
